@@ -1,5 +1,280 @@
 (* Conn/Proofs.v -- C13: quiescent => empty, per component and for the product. *)
 From Coq Require Import ZArith NArith List Bool Lia.
 From GoCoap Require Import Base.Bytes Conn.MutexMap Conn.Model Conn.Spec.
+From GoCoap Require Dedup.Proofs Retx.Proofs Limiter.Proofs Blockwise.Proofs.
 Import ListNotations.
 Open Scope Z_scope.
+
+Module DP := GoCoap.Dedup.Proofs.
+Module RP := GoCoap.Retx.Proofs.
+Module LP := GoCoap.Limiter.Proofs.
+Module BP := GoCoap.Blockwise.Proofs.
+
+(* ================================================================== *)
+(* 1. response cache (Dedup): gone after the exchange lifetime          *)
+
+Definition d_quiet (e : D.ev) : Prop := match e with D.Req _ _ _ _ _ _ => False | D.Age ms => 0 <= ms | D.Tick => True end.
+
+Definition left_le (B : Z) (c : list (Z * D.entry)) : Prop := Forall (fun '(_, en) => D.e_left en <= B) c.
+
+Lemma d_quiet_step s e B : d_quiet e -> left_le B (D.cache s) -> left_le (B - DP.age_of e) (D.cache (fst (D.step s e))).
+Proof.
+  intros Hq Hb. destruct e as [typ mid tok code ro b | ms | ]; cbn [d_quiet DP.age_of] in *; [contradiction| |].
+  - cbn [D.step fst D.cache]. unfold left_le in *.
+    induction Hb as [|[k0 e0] c H _ IH]; cbn [map]; constructor; [cbn [D.e_left]; lia|exact IH].
+  - cbn [D.step fst D.cache]. unfold left_le in *. replace (B - 0) with B by lia.
+    induction Hb as [|[k0 e0] c H _ IH]; cbn [filter]; [constructor|].
+    destruct (negb (D.expired e0)); [constructor; assumption|exact IH].
+Qed.
+
+Lemma d_quiet_run evs : forall s B, Forall d_quiet evs -> left_le B (D.cache s) ->
+  left_le (B - DP.total_age evs) (D.cache (DP.final s evs)).
+Proof.
+  induction evs as [|e evs IH]; intros s B Hq Hb; cbn [DP.total_age].
+  - replace (B - 0) with B by lia. exact Hb.
+  - inversion Hq; subst. rewrite DP.final_cons.
+    replace (B - (DP.age_of e + DP.total_age evs)) with (B - DP.age_of e - DP.total_age evs) by lia.
+    apply IH; [assumption|]. apply d_quiet_step; assumption.
+Qed.
+
+Lemma tick_clears c : left_le (-1) c -> filter (fun '(_, en) => negb (D.expired en)) c = [].
+Proof.
+  unfold left_le. induction 1 as [|[k0 e0] c H _ IH]; cbn [filter]; [reflexivity|].
+  unfold D.expired. destruct (D.e_left e0 <? 0) eqn:E; cbn [negb]; [exact IH|]. apply Z.ltb_ge in E. lia.
+Qed.
+
+Lemma left_le_weaken B B' c : B <= B' -> left_le B c -> left_le B' c.
+Proof. unfold left_le. intros HB H. induction H as [|[k0 e0] c H _ IH]; constructor; [lia|exact IH]. Qed.
+
+(* from EVERY reachable state: once more than LIFETIME has passed without a new request, the next
+   housekeeping tick leaves the response cache empty *)
+Theorem cache_expires : forall own0 pre quiet,
+  DP.ages_ok pre -> Forall d_quiet quiet -> D.LIFETIME < DP.total_age quiet ->
+  D.cache (DP.final (DP.final (DP.final (D.init own0) pre) quiet) [D.Tick]) = [].
+Proof.
+  intros own0 pre quiet Hp Hq Hage.
+  set (s := DP.final (D.init own0) pre).
+  assert (Hab : DP.all_bounded (D.cache s)) by (apply DP.run_all_bounded; [constructor|exact Hp]).
+  pose proof (d_quiet_run quiet s D.LIFETIME Hq Hab) as Hb.
+  rewrite DP.final_cons, DP.final_nil. cbn [D.step fst D.cache].
+  apply tick_clears. eapply left_le_weaken; [|exact Hb]. lia.
+Qed.
+
+(* the same for an arbitrary state whose entries respect the lifetime (used by the composition) *)
+Lemma cache_expires_from s d : DP.all_bounded (D.cache s) -> D.LIFETIME < d ->
+  D.cache (fst (D.step (fst (D.step s (D.Age d))) D.Tick)) = [].
+Proof.
+  intros Hab Hd.
+  pose proof (d_quiet_step s (D.Age d) D.LIFETIME ltac:(cbn; unfold D.LIFETIME in *; lia) Hab) as Hb. cbn [DP.age_of] in Hb.
+  cbn [D.step fst D.cache] in *. apply tick_clears. eapply left_le_weaken; [|exact Hb]. lia.
+Qed.
+
+(* ================================================================== *)
+(* 2. pending confirmables (Retx)                                       *)
+
+(* every pending entry belongs to a request that is still waiting for its acknowledgement *)
+Definition pend_owned (s : R.st) : Prop :=
+  forall p, In p (R.pending s) -> exists q, In q (R.reqs s) /\ R.q_id q = R.p_id p /\ R.is_wait_ack (R.q_st q) = true.
+
+Lemma in_set_status_inv l id f q : In q (R.set_status l id f) ->
+  exists q0, In q0 l /\ q = (if R.q_id q0 =? id then f q0 else q0).
+Proof. unfold R.set_status. intros H. apply in_map_iff in H. destruct H as (q0 & <- & Hin). eauto. Qed.
+
+Lemma in_set_status_fwd l id f q : In q l -> In (if R.q_id q =? id then f q else q) (R.set_status l id f).
+Proof. intros H. unfold R.set_status. apply in_map_iff. eauto. Qed.
+
+Lemma pend_owned_admit c : forall fuel s acc, pend_owned s -> pend_owned (fst (R.admit_waiters fuel c s acc)).
+Proof.
+  induction fuel as [|f IH]; intros s acc H; cbn [R.admit_waiters]; [exact H|].
+  destruct (R.held s <? R.nstart c); [|exact H].
+  destruct (R.first_waiting (R.reqs s)) as [q|] eqn:Ef; [|exact H].
+  apply IH. destruct (RP.first_waiting_in _ _ Ef) as [Hin Hw].
+  intros p Hp. cbn [R.pending R.reqs] in *. apply in_app_or in Hp. destruct Hp as [Hp|[<-|[]]].
+  - destruct (H p Hp) as (q1 & Hq1 & Hid & Hst).
+    exists (if R.q_id q1 =? R.q_id q then R.with_st q1 R.WaitAck else q1). split; [exact (in_set_status_fwd _ (R.q_id q) (fun x => R.with_st x R.WaitAck) q1 Hq1)|].
+    destruct (R.q_id q1 =? R.q_id q); cbn; auto.
+  - exists (R.with_st q R.WaitAck). split.
+    + pose proof (in_set_status_fwd _ (R.q_id q) (fun x => R.with_st x R.WaitAck) q Hin) as HI. rewrite Z.eqb_refl in HI. exact HI.
+    + cbn. auto.
+Qed.
+
+Lemma settle_list_keeps_ack l : forall q, In q l -> R.is_wait_ack (R.q_st q) = true -> In q (fst (R.settle_list l)).
+Proof.
+  induction l as [|a r IH]; intros q Hin Hst; [contradiction|].
+  cbn [R.settle_list]. destruct (R.settle_rq a) as [a' ra] eqn:Ea. destruct (R.settle_list r) as [r' rb] eqn:Er. cbn [fst].
+  destruct Hin as [<-|Hin].
+  - left. unfold R.settle_rq in Ea. destruct (R.q_st a); try discriminate; inversion Ea; auto.
+  - right. specialize (IH q Hin Hst). try rewrite Er in IH. exact IH.
+Qed.
+
+Lemma pend_owned_settle s : pend_owned s -> pend_owned (fst (R.settle s)).
+Proof.
+  intros H. unfold R.settle. destruct (R.settle_list (R.reqs s)) as [l ret] eqn:E. cbn [fst].
+  intros p Hp. cbn [R.pending R.reqs] in *. destruct (H p Hp) as (q & Hq & Hid & Hst).
+  exists q. split; [|auto]. pose proof (settle_list_keeps_ack _ q Hq Hst) as HK. rewrite E in HK. exact HK.
+Qed.
+
+Lemma in_del_pend l id p : In p (R.del_pend l id) -> In p l /\ R.p_id p <> id.
+Proof.
+  unfold R.del_pend. intros H. apply filter_In in H. destruct H as [H1 H2]. split; [exact H1|].
+  apply negb_true_iff in H2. apply Z.eqb_neq in H2. exact H2.
+Qed.
+
+Lemma pend_owned_wake s id : pend_owned s -> pend_owned (R.wake s id).
+Proof.
+  intros H. unfold R.wake. destruct (R.has_pend (R.pending s) id); [|exact H].
+  intros p Hp. cbn [R.pending R.reqs] in *. apply in_del_pend in Hp. destruct Hp as [Hp Hne].
+  destruct (H p Hp) as (q & Hq & Hid & Hst). exists q. split; [|auto].
+  pose proof (in_set_status_fwd _ id (fun q0 => if R.is_wait_ack (R.q_st q0) then R.with_st q0 R.WaitResp else q0) q Hq) as HI.
+  assert (E : R.q_id q =? id = false) by (apply Z.eqb_neq; congruence). rewrite E in HI. exact HI.
+Qed.
+
+Lemma pend_owned_deliver s id code : pend_owned s -> pend_owned (R.deliver s id code).
+Proof.
+  intros H p Hp. cbn [R.deliver R.pending R.reqs] in *. destruct (H p Hp) as (q & Hq & Hid & Hst).
+  set (f := fun q0 => if R.is_done (R.q_st q0) then q0 else match R.q_buf q0 with Some _ => q0 | None => R.with_buf q0 code end).
+  exists (if R.q_id q =? id then f q else q). split; [exact (in_set_status_fwd _ id f q Hq)|].
+  destruct (R.q_id q =? id); [|auto]. unfold f. destruct (R.is_done (R.q_st q)); [auto|]. destruct (R.q_buf q); cbn; auto.
+Qed.
+
+Lemma tick_all_in c : forall l p', In p' (fst (R.tick_all c l)) -> exists p b, In p l /\ R.tick_entry c p = (Some p', b).
+Proof.
+  induction l as [|p r IH]; intros p' H; cbn [R.tick_all] in H; [contradiction|].
+  destruct (R.tick_all c r) as [r' e'] eqn:Er. destruct (R.tick_entry c p) as [[p1|] b] eqn:Et.
+  - destruct b; cbn [fst] in H; (destruct H as [<-|H]; [exists p; eexists; split; [left; reflexivity|exact Et]|]);
+      destruct (IH p' H) as (p0 & b0 & Hin & He); exists p0, b0; split; auto; right; exact Hin.
+  - cbn [fst] in H. destruct (IH p' H) as (p0 & b0 & Hin & He). exists p0, b0. split; auto. right. exact Hin.
+Qed.
+
+Lemma pend_owned_step c s e : pend_owned s -> pend_owned (fst (R.step c s e)).
+Proof.
+  intros H. destruct e as [id tok dl | ms | | id | id | id code | id code pmid | id]; cbn [R.step].
+  - (* Send *)
+    match goal with |- context [R.admit_all c ?s1] => set (s1' := s1) end.
+    assert (H1 : pend_owned s1').
+    { intros p Hp. cbn [R.pending R.reqs] in *. destruct (H p Hp) as (q & Hq & Hr). exists q. split; [apply in_or_app; left; exact Hq|exact Hr]. }
+    pose proof (pend_owned_admit c (S (length (R.reqs s1'))) s1' [] H1) as H2. unfold R.admit_all.
+    destruct (R.admit_waiters (S (length (R.reqs s1'))) c s1' []) as [s2 em]. exact H2.
+  - (* Age *)
+    cbn [fst]. intros p Hp. cbn [R.pending R.reqs] in *. apply in_map_iff in Hp. destruct Hp as (p0 & <- & Hp0).
+    cbn [R.p_id]. exact (H p0 Hp0).
+  - (* Tick *)
+    destruct (R.tick_all c (R.pending s)) as [l em] eqn:Et. cbn [fst]. intros p Hp. cbn [R.pending R.reqs] in *.
+    pose proof (tick_all_in c (R.pending s) p) as HT. rewrite Et in HT. destruct (HT Hp) as (p0 & b & Hin & He).
+    destruct (RP.tick_entry_keep c p0 p b He) as [Hid _]. rewrite Hid. exact (H p0 Hin).
+  - (* Ack *)
+    pose proof (pend_owned_settle _ (pend_owned_wake s id H)) as H2.
+    destruct (R.settle (R.wake s id)) as [s2 ret]. cbn [fst] in H2.
+    pose proof (pend_owned_admit c (S (length (R.reqs s2))) s2 [] H2) as H3. unfold R.admit_all.
+    destruct (R.admit_waiters (S (length (R.reqs s2))) c s2 []) as [s3 em]. exact H3.
+  - (* Rst *)
+    pose proof (pend_owned_settle _ (pend_owned_wake s id H)) as H2.
+    destruct (R.settle (R.wake s id)) as [s2 ret]. cbn [fst] in H2.
+    pose proof (pend_owned_admit c (S (length (R.reqs s2))) s2 [] H2) as H3. unfold R.admit_all.
+    destruct (R.admit_waiters (S (length (R.reqs s2))) c s2 []) as [s3 em]. exact H3.
+  - (* Piggy *)
+    pose proof (pend_owned_settle _ (pend_owned_deliver _ id code (pend_owned_wake s id H))) as H2.
+    destruct (R.settle (R.deliver (R.wake s id) id code)) as [s2 ret]. cbn [fst] in H2.
+    pose proof (pend_owned_admit c (S (length (R.reqs s2))) s2 [] H2) as H3. unfold R.admit_all.
+    destruct (R.admit_waiters (S (length (R.reqs s2))) c s2 []) as [s3 em]. exact H3.
+  - (* Sep *)
+    pose proof (pend_owned_settle _ (pend_owned_deliver _ id code H)) as H2.
+    destruct (R.settle (R.deliver s id code)) as [s2 ret]. exact H2.
+  - (* Cancel *)
+    destruct (R.find_rq (R.reqs s) id) as [q|]; [|exact H].
+    destruct (R.is_done (R.q_st q)); [exact H|].
+    match goal with |- context [R.admit_all c ?s1] => set (s1' := s1) end.
+    assert (H1 : pend_owned s1').
+    { intros p Hp. cbn [R.pending R.reqs] in *. apply in_del_pend in Hp. destruct Hp as [Hp Hne].
+      destruct (H p Hp) as (q1 & Hq1 & Hid & Hst). exists q1. split; [|auto].
+      pose proof (in_set_status_fwd _ id (fun x => R.with_st x (R.Done 1)) q1 Hq1) as HI.
+      assert (E : R.q_id q1 =? id = false) by (apply Z.eqb_neq; congruence). rewrite E in HI. exact HI. }
+    pose proof (pend_owned_admit c (S (length (R.reqs s1'))) s1' [] H1) as H2. unfold R.admit_all.
+    destruct (R.admit_waiters (S (length (R.reqs s1'))) c s1' []) as [s2 em]. exact H2.
+Qed.
+
+Lemma pend_owned_run c evs : forall s, pend_owned s -> pend_owned (RP.final c s evs).
+Proof.
+  induction evs as [|e evs IH]; intros s H; [exact H|]. rewrite RP.final_cons. apply IH. apply pend_owned_step. exact H.
+Qed.
+
+Definition all_returned (s : R.st) : Prop := forall q, In q (R.reqs s) -> R.is_done (R.q_st q) = true.
+
+(* when every call has returned, the pending table is empty -- for every history *)
+Theorem pending_empty : forall c evs,
+  let s := RP.final c R.init evs in all_returned s -> R.pending s = [].
+Proof.
+  intros c evs s Hd. assert (H : pend_owned s) by (apply pend_owned_run; intros p []).
+  destruct (R.pending s) as [|p r] eqn:E; [reflexivity|].
+  destruct (H p ltac:(rewrite E; left; reflexivity)) as (q & Hq & _ & Hst). specialize (Hd q Hq).
+  destruct (R.q_st q); discriminate.
+Qed.
+
+(* an entry whose retransmissions are exhausted or whose deadline has passed does not survive a tick *)
+Definition p_expired (c : R.cfg) (p : R.pend) : Prop :=
+  (exists d, R.p_dl p = Some d /\ d < 0) \/ R.max_rt c <= R.p_count p.
+
+Lemma tick_entry_expired c p : p_expired c p -> R.tick_entry c p = (None, false).
+Proof.
+  intros [(d & Hd & Hlt)|Hc]; unfold R.tick_entry.
+  - rewrite Hd. assert (E : d <? 0 = true) by (apply Z.ltb_lt; exact Hlt). rewrite E. reflexivity.
+  - assert (E : R.p_count p >=? R.max_rt c = true) by (apply Z.geb_le; exact Hc). rewrite E. rewrite orb_true_r. reflexivity.
+Qed.
+
+Theorem tick_removes_expired : forall c s p',
+  In p' (R.pending (fst (R.step c s R.Tick))) ->
+  exists p b, In p (R.pending s) /\ ~ p_expired c p /\ R.tick_entry c p = (Some p', b).
+Proof.
+  intros c s p' H. cbn [R.step] in H. destruct (R.tick_all c (R.pending s)) as [l em] eqn:Et. cbn [fst R.pending] in H.
+  pose proof (tick_all_in c (R.pending s) p') as HT. rewrite Et in HT. destruct (HT H) as (p & b & Hin & He).
+  exists p, b. repeat split; auto. intros Hx. rewrite (tick_entry_expired c p Hx) in He. discriminate.
+Qed.
+
+(* entries without a caller (AsyncPing) and without a deadline: once ACK_TIMEOUT*(MAX_RETRANSMIT+1)
+   has passed, every tick either removes an entry or counts one more retransmission, so
+   MAX_RETRANSMIT+1 ticks empty the list *)
+Definition ripe (c : R.cfg) (k : Z) (p : R.pend) : Prop :=
+  k <= R.p_count p /\ R.ack_ms c * (R.max_rt c + 1) < R.p_elapsed p.
+
+Lemma tick_all_ripe c k : 0 <= R.ack_ms c -> forall l, Forall (ripe c k) l -> Forall (ripe c (k + 1)) (fst (R.tick_all c l)).
+Proof.
+  intros Hack. induction l as [|p r IH]; intros H; cbn [R.tick_all]; [constructor|].
+  inversion H as [|? ? [Hk He] Hr]; subst. specialize (IH Hr).
+  destruct (R.tick_all c r) as [r' e']. cbn [fst] in IH.
+  unfold R.tick_entry.
+  destruct ((match R.p_dl p with Some d => d <? 0 | None => false end) || (R.p_count p >=? R.max_rt c)) eqn:Ex; [exact IH|].
+  apply orb_false_iff in Ex. destruct Ex as [_ Ec].
+  assert (Hc : R.p_count p < R.max_rt c) by (destruct (R.p_count p >=? R.max_rt c) eqn:E; [discriminate|]; rewrite Z.geb_leb in E; apply Z.leb_gt in E; lia).
+  assert (Hlt : R.ack_ms c * (R.p_count p + 1) <? R.p_elapsed p = true) by (apply Z.ltb_lt; nia).
+  rewrite Hlt. cbn [fst]. constructor; [|exact IH]. split; cbn [R.p_count R.p_elapsed]; [lia|exact He].
+Qed.
+
+Fixpoint ticks (c : R.cfg) (n : nat) (l : list R.pend) : list R.pend :=
+  match n with O => l | S n' => ticks c n' (fst (R.tick_all c l)) end.
+
+Lemma ticks_ripe c : 0 <= R.ack_ms c -> forall n k l, Forall (ripe c k) l -> Forall (ripe c (k + Z.of_nat n)) (ticks c n l).
+Proof.
+  intros Hack. induction n as [|n IH]; intros k l H; cbn [ticks].
+  - replace (k + Z.of_nat 0) with k by lia. exact H.
+  - replace (k + Z.of_nat (S n)) with (k + 1 + Z.of_nat n) by lia. apply IH. apply tick_all_ripe; assumption.
+Qed.
+
+Lemma ripe_all_gone c l : Forall (ripe c (R.max_rt c)) l -> fst (R.tick_all c l) = [].
+Proof.
+  induction l as [|p r IH]; intros H; cbn [R.tick_all]; [reflexivity|].
+  inversion H as [|? ? [Hk He] Hr]; subst. specialize (IH Hr). destruct (R.tick_all c r) as [r' e']. cbn [fst] in IH. subst r'.
+  rewrite (tick_entry_expired c p); [reflexivity|]. right. exact Hk.
+Qed.
+
+Theorem pending_exhausts : forall c l, 0 <= R.ack_ms c -> 0 <= R.max_rt c ->
+  Forall (fun p => 0 <= R.p_count p /\ R.ack_ms c * (R.max_rt c + 1) < R.p_elapsed p) l ->
+  ticks c (S (Z.to_nat (R.max_rt c))) l = [].
+Proof.
+  intros c l Hack Hm H.
+  assert (H0 : Forall (ripe c 0) l) by (eapply Forall_impl; [|exact H]; intros p [? ?]; split; assumption).
+  pose proof (ticks_ripe c Hack (Z.to_nat (R.max_rt c)) 0 l H0) as HR.
+  rewrite Z2Nat.id in HR by exact Hm. cbn [Z.add] in HR.
+  assert (forall n l0, ticks c (S n) l0 = fst (R.tick_all c (ticks c n l0))) as Hs.
+  { induction n as [|n IHn]; intros l0; [reflexivity|]. cbn [ticks] in *. rewrite <- IHn. reflexivity. }
+  rewrite Hs. apply ripe_all_gone. exact HR.
+Qed.
